@@ -60,6 +60,12 @@ def canon(t: Any) -> Any:
                 lo = args[0] if len(args) > 0 else kwd.get("min")
                 hi = args[1] if len(args) > 1 else kwd.get("max")
                 return T("call", ("torch.clip", (("input", recv), ("max", hi), ("min", lo))))
+            arith = {"div": "div", "div_": "div", "true_divide": "div", "true_divide_": "div", "mul": "mul", "mul_": "mul", "multiply": "mul", "add": "add", "add_": "add", "sub": "sub", "sub_": "sub", "bitwise_and": "and", "bitwise_and_": "and", "__and__": "and", "__iand__": "and"}
+            if name in arith and len(args) == 1 and not kw:
+                # method / in-place spellings of the arithmetic operators (same value)
+                return T(arith[name], (recv, args[0]))
+            if name in ("bitwise_not", "__invert__") and not args:
+                return T("invert", (recv,))
             if name == "to":
                 # keep only the dtype argument
                 keep = tuple(a for a in args if isinstance(a, T) and (a.op == "ext" or (a.op == "attr" and a.args[1] == "dtype")))
